@@ -327,10 +327,9 @@ def case_matrix(case):
             V.add("%s/enumerate_words/extra" % which, "enumerated %r is not an accepted word of even length" % (x,))
         for x in sorted(want - gs, key=lambda z: (len(z), z))[:MAXMSG]:
             V.add("%s/enumerate_words/missing" % which, "accepted even-length word %r is not enumerated" % (x,))
-        # accepts() on words cut into the two-letter labels, on a fresh object (a query must not
-        # be able to influence the enumeration above)
-        E2 = G.automaton(shortlex=shortlex, even_length=True)
-        t += 1
+        # accepts() on words cut into the two-letter labels; done after the enumeration so that a
+        # query cannot influence it
+        E2 = E
         if not bool(E2.accepts([])):
             V.add("%s/accepts/empty-word" % which, "empty word rejected")
         for (u, red, is_nf) in even_items:
@@ -454,8 +453,7 @@ def run(ctx):
                                 "apart in some entry; entries are algebraic integers of Z[2cos(pi/m)] of moderate "
                                 "height for |w| <= 8, measured minimum distance is >= 0.1")
     ctx.tolerances["oracle"] = "Tits-representation matrices of the oracle are identified after rounding to 1e-6"
-    Lq = 7
-    L3 = Lq if q else 8
+    L3 = 8 if q else 10
     # ---- oracle self check
     oc = [{"m": m, "L": 100, "degrees": d, "cap": 20000} for (nm, m, d) in cw.KNOWN_FINITE if nm not in ("B4", "F4")]
     oc += [{"m": m, "L": 8} for m in ([[1, 0], [0, 1]], sym_matrix(3, [3, 3, 3]), sym_matrix(3, [2, 3, 0]),
@@ -490,15 +488,15 @@ def run(ctx):
     for m in all_matrices(3, sub):
         enc = encodings(m)
         mm = enc[1][1] if len(enc) > 1 else enc[0][1]          # infinity as -1 where present
-        cases.append({"m": mm, "L": L3 - 1, "style": "alphanum", "route": "matrix", "Lg": 12})
-        cases.append({"m": mm, "L": L3 - 1, "style": "alpha", "route": "diagram", "Lg": 12,
+        cases.append({"m": mm, "L": L3 - 2, "style": "alphanum", "route": "matrix", "Lg": 12})
+        cases.append({"m": mm, "L": L3 - 2, "style": "alpha", "route": "diagram", "Lg": 12,
                       "pairs": [[1, 2], [0, 2], [0, 1]]})
-        cases.append({"m": mm, "L": L3 - 1, "style": "alphanum", "route": "diagram", "Lg": 12})
+        cases.append({"m": mm, "L": L3 - 2, "style": "alphanum", "route": "diagram", "Lg": 12})
     P("rank3-routes", "checks.c07:case_matrix", cases,
                 domains={"labels": sub, "routes": ["matrix/alphanum", "diagram/alpha listed (1,2),(0,2),(0,1)",
-                                                   "diagram/alphanum"], "L": L3 - 1}, chunk=2)
+                                                   "diagram/alphanum"], "L": L3 - 2}, chunk=2)
     # ---- rank 4
-    labels4 = [2, 3, 0] if q else [2, 3, 4, 5, 0]
+    labels4 = [2, 3, 4, 0] if q else [2, 3, 4, 5, 0]
     L4 = 5 if q else 6
     cases = []
     for m in all_matrices(4, labels4):
@@ -516,8 +514,8 @@ def run(ctx):
         for i, m in enumerate(rank5_family()):
             enc = encodings(m)
             mm = enc[(i % 2) if len(enc) > 1 else 0][1]
-            cases.append({"m": mm, "L": 7, "style": "alpha", "route": "matrix", "Lg": 12, "Lmat": 5,
+            cases.append({"m": mm, "L": 8, "style": "alpha", "route": "matrix", "Lg": 12, "Lmat": 5,
                           "cap": 12000, "Limg": 6})
         P("rank5-paths-stars", "checks.c07:case_matrix", cases,
                     domains={"shapes": ["path 0-1-2-3-4", "path scrambled order", "star centre 0", "star centre 2",
-                                        "star scrambled order"], "edge labels": [3, 4, "inf"], "L": 7}, chunk=2)
+                                        "star scrambled order"], "edge labels": [3, 4, "inf"], "L": 8}, chunk=1)
